@@ -99,11 +99,11 @@ PROPS = {
         'random texts over an alphabet of operators, keywords, digits, wildcards, slashes, backslashes, whitespace, quotes, non-ASCII; quoted and escaped spellings; on every escaped case the generator spelling is compared with the extracted Spec/Escape.esc (the function of the any-script theorems) under the oracle classes',
         '', ['oracle facts: double quote, colon and the four whitespace runes are not letters or digits']),
     'C09': P(
-        ['C09_keyword_case', 'C09_whitespace_same_tokens', 'C09_whitespace_same_parse', 'C09_redundant_parentheses', 'C09_redundant_parentheses_same_parse', 'C09_whitespace_same_tokens_any_bytes', 'C09_whitespace_same_parse_any_bytes', 'C09_token_independent_of_what_follows', 'C09_keyword_case_same_parse', 'C09_keyword_case_same_parse_of_text'],
+        ['C09_keyword_case', 'C09_whitespace_same_tokens', 'C09_whitespace_same_parse', 'C09_redundant_parentheses', 'C09_redundant_parentheses_same_parse', 'C09_whitespace_same_tokens_any_bytes', 'C09_whitespace_same_parse_any_bytes', 'C09_token_independent_of_what_follows', 'C09_keyword_case_same_parse', 'C09_keyword_case_same_parse_of_text', 'C09_keyword_case_same_parse_from_the_text', 'C09_keyword_spelling_lexes_alone'],
         [('corpus', 0), ('layout', 1500), ('scale-layout', 0), ('scale-chain', 0), ('nearmiss', 0)],
         [('corpus', 0), ('layout', 30000), ('enum', 5000), ('scale-layout', 0), ('scale-chain', 0), ('nearmiss', 0)],
         PARSE,
-        'whitespace clause proved for ALL byte strings, valid UTF-8 or not (any change of the whitespace between and around tokens that removes no existing separator gives the same token stream, hence the same parse result; words ending in a dangling escape excluded = K14); keyword case: the token type of a word is invariant under ASCII letter case, and the parser reads only the type of a token that is not a term (two token lists agreeing in all types and in the texts of term tokens have the same outcome, tree or rejection: step-for-step simulation through all 12 reducers); redundant parentheses: two printed trees differing only in parenthesis nodes parse (parser loop + Validate) to the same tree. The general theorem rests on a context theorem for one Next(): the decoder looks at most three bytes past a token and only to find a truncated sequence not continued; whitespace and the first byte of a proper token are never continuation bytes (oracle fact: U+FFFD is neither letter nor digit). Not proved: parentheses in arbitrary accepted token sequences that are not printed trees (K15 lives there); decided by C09_check on variant pairs.',
+        'whitespace clause proved for ALL byte strings, valid UTF-8 or not (any change of the whitespace between and around tokens that removes no existing separator gives the same token stream, hence the same parse result; words ending in a dangling escape excluded = K14); keyword case: the token type of a word is invariant under ASCII letter case, and the parser reads only the type of a token that is not a term (two token lists agreeing in all types and in the texts of term tokens have the same outcome, tree or rejection: step-for-step simulation through all 12 reducers), and from the query TEXT: respelling operator tokens that stand between whitespace (a keyword in another letter case lexes alone as one token of the same type) leaves the result of Parse unchanged, for texts of any bytes; redundant parentheses: two printed trees differing only in parenthesis nodes parse (parser loop + Validate) to the same tree. The general theorem rests on a context theorem for one Next(): the decoder looks at most three bytes past a token and only to find a truncated sequence not continued; whitespace and the first byte of a proper token are never continuation bytes (oracle fact: U+FFFD is neither letter nor digit). Not proved: parentheses in arbitrary accepted token sequences that are not printed trees (K15 lives there); decided by C09_check on variant pairs.',
         'variant pairs (whitespace fillings incl. tabs/newlines/none, keyword case, redundant parentheses) of random trees and of arbitrary token sequences',
         '', []),
     'C10': P(
